@@ -49,6 +49,82 @@ type result struct {
 	events    []wire.Event
 }
 
+// longStream: one connection that stays open sends 40 relayed requests of 2 MiB each, one after the other. What the
+// process holds on to while serving it is bounded by the frame in hand (and its reply), not by how many frames came
+// before: after 30 frames and a collection the live heap has not grown by tens of megabytes. Runs alone.
+func longStream(r *ev.Run) {
+	c := r.Case("long-stream", 0)
+	if c == nil {
+		return
+	}
+	r.Eval(1)
+	r.Guard(c, "long stream", nil, func() {
+		ag := wire.New()
+		defer ag.Close()
+		sock, err := ag.Listen()
+		if err != nil {
+			r.Inconclusive(err.Error())
+			return
+		}
+		srv, err := yubiagent.NewServer(sock, true)
+		if err != nil {
+			r.Inconclusive(err.Error())
+			return
+		}
+		defer srv.Close()
+		c1, c2, err := wire.SocketPair()
+		if err != nil {
+			r.Inconclusive(err.Error())
+			return
+		}
+		defer c1.Close()
+		go func() { defer c2.Close(); defer func() { recover() }(); yubiagent.ServeAgent(srv, c2) }()
+		var ms runtime.MemStats
+		runtime.GC()
+		runtime.ReadMemStats(&ms)
+		base := ms.HeapAlloc
+		body := append([]byte{200}, bytes.Repeat([]byte{0x5a}, 2<<20)...)
+		frame := wire.Frame(body)
+		var grown uint64
+		for i := 0; i < 40; i++ {
+			done := make(chan error, 1)
+			go func() {
+				if _, err := c1.Write(frame); err != nil {
+					done <- err
+					return
+				}
+				_, err := wire.ReadFrame(c1)
+				done <- err
+			}()
+			select {
+			case err := <-done:
+				if err != nil {
+					r.Violation(c, "well-formed-request-not-answered:long-stream", fmt.Sprintf("frame %d of 40: %v", i, err), nil)
+					return
+				}
+			case <-time.After(ev.OpTimeout()):
+				r.Violation(c, "serving-never-ends:long-stream", fmt.Sprintf("frame %d of 40 was not answered", i), nil)
+				return
+			}
+			ag.ResetLog() // the scripted agent's own event log would otherwise hold every frame
+			if i == 30 {
+				runtime.GC()
+				runtime.ReadMemStats(&ms)
+				if ms.HeapAlloc > base {
+					grown = ms.HeapAlloc - base
+				}
+			}
+		}
+		if grown > 40<<20 {
+			r.Violation(c, "memory-held-grows-with-the-number-of-frames", fmt.Sprintf("after 30 frames of 2 MiB on one connection (and a garbage collection) the live heap is %d MiB above where it started", grown>>20), map[string]any{"live_heap_growth_bytes": grown})
+			return
+		}
+		r.Count("frames of 2 MiB served on one connection with a bounded live heap", 40)
+		r.Extra("long_stream_live_heap_growth_bytes", grown)
+		r.Nontrivial("long-stream")
+	})
+}
+
 // upstreamHangsUp: the underlying agent reads a relayed request and closes the connection instead of answering.
 var upstreamHangsUp atomic.Bool
 
@@ -669,6 +745,7 @@ func main() {
 			}
 		}
 		upstreamHangsUp.Store(false)
+		longStream(r)
 		allocation(r)
 		r.Floor(int64(r.Pick(3000, 50000)), int64(r.Pick(1500, 20000)))
 	})
